@@ -1683,6 +1683,72 @@ def homogeneous_moment_predicate_rule(ctx, rid):
                f'a moment of kind `{name}` ({moment}) gives {got!r}, expected {want!r}', m.rel, fn.lineno)
 
 
+def term_starts_from_stash_rule(ctx, rid):
+    """apply_channel / apply_mixture strategies: every term of the sum is computed from the same input tensor."""
+    repo = ctx.repo
+    ctx.decided.append(f'{rid} every loop of the channel / mixture strategies that sums terms into args.out_buffer restores args.target_tensor from a stash before computing each term')
+    ctx.rule(rid, 'every term starts from the input: in cirq.protocols.apply_channel_protocol / apply_mixture_protocol, a loop that accumulates into `args.out_buffer` and lets a term '
+             'overwrite `args.target_tensor` (an `out=args.target_tensor`, or the whole `args` handed to a strategy - apply_unitary may scribble on its target) runs '
+             '`np.copyto(dst=args.target_tensor, src=args.<B>)` in each iteration before anything touches the target; `args.<B>` is filled from `args.target_tensor` outside the loops of the module and is no `out=` of the loop body - '
+             'otherwise term k is applied to the result of term k-1 (rho -> sum_k p_k U_k rho U_k^+ becomes a product)', floor=3, style='MPT')
+
+    def is_args_attr(x, attr=None):
+        return isinstance(x, ast.Attribute) and isinstance(x.value, ast.Name) and x.value.id == 'args' and (attr is None or x.attr == attr)
+
+    def copyto(st):
+        """(dst attr, src attr) of np.copyto(dst=args.X, src=args.Y) statement, else None"""
+        if isinstance(st, ast.Expr) and isinstance(st.value, ast.Call) and call_name(st.value) == 'copyto':
+            c = st.value
+            kw = {k.arg: k.value for k in c.keywords}
+            dst = kw.get('dst', c.args[0] if c.args else None)
+            src = kw.get('src', c.args[1] if len(c.args) > 1 else None)
+            if is_args_attr(dst) and is_args_attr(src):
+                return dst.attr, src.attr
+        return None
+    n = 0
+    for rel in ('cirq-core/cirq/protocols/apply_channel_protocol.py', 'cirq-core/cirq/protocols/apply_mixture_protocol.py'):
+        m = repo.module(rel)
+        par = m.parents()
+        stashes = set()
+        for st in ast.walk(m.tree):
+            ct = copyto(st)
+            if ct and ct[1] == 'target_tensor':
+                a = par.get(st)
+                inloop = False
+                while a is not None and not isinstance(a, (ast.FunctionDef, ast.AsyncFunctionDef)):
+                    inloop = inloop or isinstance(a, (ast.For, ast.While))
+                    a = par.get(a)
+                if not inloop:
+                    stashes.add(ct[0])
+        for fn in [x for x in ast.walk(m.tree) if isinstance(x, ast.FunctionDef)]:
+            for l in [x for x in ast.walk(fn) if isinstance(x, ast.For)]:
+                acc = [x for x in ast.walk(l) if isinstance(x, ast.AugAssign) and is_args_attr(x.target, 'out_buffer')]
+                if not acc:
+                    continue
+                scribbles = [x for st in l.body for x in ast.walk(st) if isinstance(x, ast.Call) and (
+                    any(k.arg == 'out' and is_args_attr(k.value, 'target_tensor') for k in x.keywords)
+                    or (call_name(x) != 'copyto' and any(isinstance(a_, ast.Name) and a_.id == 'args' for a_ in x.args)))]
+                if not scribbles:
+                    continue
+                n += 1
+                first = None
+                for st in l.body:
+                    ct = copyto(st)
+                    if ct and ct[0] == 'target_tensor':
+                        first = ct
+                        break
+                    if any(x in scribbles or (isinstance(x, ast.Attribute) and is_args_attr(x, 'target_tensor')) for x in ast.walk(st)):
+                        break    # the term reads or overwrites the target before it is restored
+                why = ''
+                if not first or first[0] != 'target_tensor':
+                    why = f'the loop at line {l.lineno} computes a term that may overwrite args.target_tensor (`{ast.unparse(scribbles[0])[:50]}`) without first restoring it from a stash'
+                elif first[1] not in stashes:
+                    why = f'args.{first[1]} restores the input at line {l.lineno + 1} but is never filled from args.target_tensor outside a loop in this module'
+                elif any(isinstance(x, ast.Call) and any(k.arg == 'out' and is_args_attr(k.value, first[1]) for k in x.keywords) for st in l.body for x in ast.walk(st)):
+                    why = f'args.{first[1]}, the stash of the input, is also an out= buffer of the loop body'
+                ctx.ob(rid, f'{m.name}.{fn.name}:term-from-input', not why, why, rel, l.lineno)
+
+
 def configured_duration_first_rule(ctx, rid):
     """ThermalNoiseModel: the duration a wait gate carries is a default; the configured gate_durations_ns table is consulted before it."""
     from ..flow import PathWalker
